@@ -113,7 +113,11 @@ func VerifC10Steps() {
 			n++
 			prio := float64(1 + verifChoose(fmt.Sprintf("prio%d", st), 2))
 			ttl := []time.Duration{700 * time.Millisecond, 2500 * time.Millisecond}[verifChoose(fmt.Sprintf("ttl%d", st), 2)]
-			verifAdvance(1_000_000)
+			if verifParam("lateTimers", 0) == 1 {
+				verifAdvanceLazy(1_000_000) // goroutines that are already late stay late across the arrival
+			} else {
+				verifAdvance(1_000_000)
+			}
 			r := h.arrive(q, n, prio, ttl, maxQ)
 			verifDrain()
 			r.waited = !r.done
